@@ -1,5 +1,6 @@
 #!/bin/bash
-# Must-fail corpus: every canary (the reverse of a "fix:" commit) and every seeded change under /verif/seeded is applied
+# Must-fail corpus: every canary (the reverse of a "fix:" commit), every hand-made change under selftest/handmade (written
+# while closing a hole, one line of explanation in README) and every seeded change under /verif/seeded is applied
 # IN MEMORY (overlay) and the check of its property must exit 1 with a VIOLATION line. Nothing is written to /repo and the
 # evidence files of the real tree are not touched. Usage: selftest/run.sh [name-substring]
 # Exit code 0 iff every expected catch happened (entries listed in selftest/expected_misses.txt are reported, not failed).
@@ -19,6 +20,7 @@ run() { # name prop patch
 }
 FILTER=$1
 for d in selftest/canaries/*/; do name=$(basename $d); run "canary/$name" "${name%%-*}" "$d/revert.diff"; done
+for d in selftest/handmade/*/; do name=$(basename $d); run "handmade/$name" "${name%%-*}" "$d/patch.diff"; done
 for d in seeded/*/; do [ -f "$d/patch.diff" ] || continue; name=$(basename $d); run "seeded/$name" "${name%%-*}" "$d/patch.diff"; done
 echo "corpus entries run: $n"
 exit $fail
